@@ -55,6 +55,8 @@ func init() {
 			{ID: "C07-R30", Title: "a refused invocation writes nothing to the VM (shared with C06-R22)", Floor: 8, Run: refusedInvocationsWriteNothing},
 			{ID: "C07-R31", Title: "options that are refused are rolled back", Floor: 3, Run: refusedOptionsAreRolledBack},
 			{ID: "C07-R32", Title: "a host Call leaves the resume point alone", Floor: 1, Run: aHostCallLeavesTheResumePointAlone},
+			{ID: "C07-R33", Title: "frame storage is per activation and re-pointed by its owners only (shared with C02-R17)", Floor: 3, Run: frameStorageIsPerActivation},
+			{ID: "C07-R34", Title: "nesting counters of the VM are taken off in a deferred function (shared with C03-R34)", Floor: 2, Run: nestingCountersAreKeptOnEveryPath},
 		},
 	})
 }
